@@ -476,18 +476,78 @@ Definition copy_like_11 (s : state) (i j : nat) : state * option err :=
   | (s2, None) => copy_tc s2 i j
   end.
 
-(* Stream.mix_from(others, energy_balance=False part), receiver and sources single-phase *)
-Definition mix_flows (s : state) (i : nat) (srcs : list nat) : state :=
+(* ChemicalIndexer.mix_from(others): single-phase receiver, same chemicals; a multi-phase inlet contributes all its rows *)
+Definition mix_flows_1 (s : state) (i : nat) (srcs : list nat) : state :=
   let im := imol_of s (o_imol (obj_of s i)) in
   let sims := map (fun j => imol_of s (o_imol (obj_of s j))) srcs in
-  (* set_main_phase: all sources have the same phase -> receiver's phase is set; failures are swallowed *)
+  (* set_main_phase: all inlets single-phase with the same phase -> receiver's phase is set; failures (a locked phase, an
+     inlet without a phase container) are swallowed *)
   let s1 := match sims with
             | [] => s
             | f :: t => let p := phase_of s f in
-                        if forallb (fun x => Nat.eqb (phase_of s x) p) t then fst (set_pcell s (i_ph im) p) else s
+                        if forallb (fun x => negb (i_multi x)) sims && forallb (fun x => Nat.eqb (phase_of s x) p) t
+                        then fst (set_pcell s (i_ph im) p) else s
             end in
-  let total := fold_right vadd (vzero nchem) (map (fun x => row s (i_data x)) sims) in
+  let total := fold_right vadd (vzero nchem) (flat_map (data_rows s) sims) in
   wr_row s1 (i_data im) total.
+
+(* MaterialIndexer._expand_phases(other_phases), phases within g, l, s *)
+Fixpoint row_of_phase (p : phase) (l : list (phase * nat)) : option nat :=
+  match l with
+  | [] => None
+  | (q, r) :: t => if Nat.eqb p q then Some r else row_of_phase p t
+  end.
+Fixpoint build_rows (s : state) (old : list (phase * nat)) (ps : list phase) : state * list nat :=
+  match ps with
+  | [] => (s, [])
+  | p :: t =>
+      match row_of_phase p old with
+      | Some r => let (s1, rs) := build_rows s old t in (s1, r :: rs)
+      | None => let (s1, r) := new_row s (vzero nchem) in           (* SparseVector.from_size(size) *)
+                let (s2, rs) := build_rows s1 old t in (s2, r :: rs)
+      end
+  end.
+Definition needs_expansion (im : imol) (others : list phase) : bool :=
+  negb (forallb (fun p => existsb (Nat.eqb p) (i_phases im)) others).
+Definition expand_phases (s : state) (ir : nat) (others : list phase) : state :=
+  let im := imol_of s ir in
+  if negb (needs_expansion im others) then s
+  else
+    let merged := filter (fun p => existsb (Nat.eqb p) (i_phases im ++ others)) (seq O 3) in     (* phase_tuple *)
+    let (s1, rs) := build_rows s (combine (i_phases im) (arr s (i_data im))) merged in
+    let (s2, a) := new_arr s1 rs in
+    (* `data.rows = [...]` replaces the row list of the SparseArray IN PLACE: every indexer holding this SparseArray sees
+       the new rows, while a cached volumetric view keeps the rows it was built on.  SparseArray cells are immutable
+       here, so the same effect is a new cell to which every holder of the old one is re-pointed. *)
+    let a0 := i_data im in
+    let s3 := set_imols s2 (map (fun x => if i_multi x && Nat.eqb (i_data x) a0
+                                          then mkimol true a (i_ph x) (i_phases x) (i_dc x) else x) (imols s2)) in
+    let im3 := imol_of s3 ir in
+    let s4 := wr_imol s3 ir (mkimol true (i_data im3) (i_ph im3) merged (i_dc im3)) in          (* _set_phases *)
+    set_dcs s4 (upd (dcs s4) (i_dc im3) []).                                                     (* _data_cache.clear() *)
+
+Definition phases_of_src (s : state) (x : imol) : list phase := if i_multi x then i_phases x else [phase_of s x].
+(* the rows an inlet files under phase p *)
+Definition src_rows_for (s : state) (p : phase) (x : imol) : list nat :=
+  if i_multi x then map fst (filter (fun rp => Nat.eqb (snd rp) p) (combine (arr s (i_data x)) (i_phases x)))
+  else if Nat.eqb (phase_of s x) p then [i_data x] else [].
+
+(* MaterialIndexer.mix_from(others): multi-phase receiver, same chemicals *)
+Definition mixm (s : state) (i : nat) (srcs : list nat) : state :=
+  let ir := o_imol (obj_of s i) in
+  let srefs := map (fun j => o_imol (obj_of s j)) srcs in
+  let others := flat_map (fun r => phases_of_src s (imol_of s r)) srefs in
+  let s1 := expand_phases s ir others in
+  let im := imol_of s1 ir in
+  (* for phase, sv in zip(phases, self.data.rows): sv.mix_from(rows filed under that phase) *)
+  fold_left (fun st pr =>
+               wr_row st (snd pr) (fold_right vadd (vzero nchem)
+                    (map (row st) (flat_map (fun x => src_rows_for st (fst pr) (imol_of st x)) srefs))))
+            (combine (i_phases im) (arr s1 (i_data im))) s1.
+
+(* self._imol.mix_from([i._imol for i in streams]) *)
+Definition mix_flows (s : state) (i : nat) (srcs : list nat) : state :=
+  if is_multi s i then mixm s i srcs else mix_flows_1 s i srcs.
 
 (* ---------- volumetric flows: Stream.vol / MultiStream.vol through indexer.by_volume and _data_cache ---------- *)
 Fixpoint find_dc (t : nat) (l : list dcent) : option dcent :=
@@ -695,11 +755,23 @@ Definition step (w : world) (o : op) : world * obs :=
 
 (* domain of the volumetric-flow theorem: MultiStreams that link flows and T/P have the same phase tuple
    (link_with does not check this; otherwise _phases and data.rows of the receiver disagree from then on) *)
+(* a multi-phase receiver whose phases are expanded in place must be the only holder of its SparseArray: another
+   indexer holding it (a linked MultiStream) keeps its own _phases and, unless it shares the _data_cache too, its
+   cached volumetric views of the old rows *)
+Definition adm_mix (s : state) (i : nat) (srcs : list nat) : bool :=
+  let ir := o_imol (obj_of s i) in let im := imol_of s ir in
+  let others := flat_map (fun j => phases_of_src s (imol_of s (o_imol (obj_of s j)))) srcs in
+  if i_multi im && needs_expansion im others
+  then forallb (fun r => Nat.eqb r ir || negb (i_multi (imol_of s r) && Nat.eqb (i_data (imol_of s r)) (i_data im)))
+               (seq O (length (imols s)))
+  else true.
 Definition adm (s : state) (o : op) : bool :=
   match o with
   | OLink i j fl ph tp =>
       let im := imol_of s (o_imol (obj_of s i)) in let im2 := imol_of s (o_imol (obj_of s j)) in
       if i_multi im && i_multi im2 && fl && tp then list_eqb Nat.eqb (i_phases im) (i_phases im2) else true
+  | OMix i srcs _ _ => adm_mix s i srcs
+  | OMix1 i j => adm_mix s i [j]
   | _ => true
   end.
 Fixpoint run_adm (w : world) (ops : list op) : bool :=
